@@ -16,6 +16,7 @@ import (
 	"verifharness/internal/c08"
 	"verifharness/internal/c09"
 	"verifharness/internal/c10"
+	"verifharness/internal/c11"
 	"verifharness/internal/c12"
 	"verifharness/internal/c13"
 	"verifharness/internal/c14"
@@ -51,6 +52,7 @@ var subs = map[string]sub{
 	"c17": c17.Run,
 	"c18": c18.Run,
 	"c19": c19.Run,
+	"c11": c11.Run,
 }
 
 var gens = map[string]func(outDir string) error{
